@@ -126,3 +126,12 @@ Theorem host_calls_are_where_the_model_logs_them : host_calls_confined = true.
 Proof. exact EventsTie.now_host_calls_confined. Qed.
 Check host_calls_are_where_the_model_logs_them : host_calls_confined = true.
 Print Assumptions host_calls_are_where_the_model_logs_them.
+
+(* T-gen tie of registrations_survive_*: in the Rust sources the observers, external bindings, error handler and
+   fallbacks flag are written by the registration calls only — regenerated from the sources on every run *)
+From Ink.Gen Require Import EngineGen.
+From Ink.Shell Require Import StructureTie.
+Theorem registrations_are_written_by_registration_calls_only : registrations_written_by_registration_calls = true.
+Proof. exact StructureTie.now_registrations_written_by_registration_calls. Qed.
+Check registrations_are_written_by_registration_calls_only : registrations_written_by_registration_calls = true.
+Print Assumptions registrations_are_written_by_registration_calls_only.
